@@ -800,6 +800,10 @@ pub enum Profile {
     Full,
     /// cyclic programs over 8-bit sets
     Cycle,
+    /// core + `mk`/`sp`/`tv`/`tk` with at most one struct per creator (Lean model `corespec`)
+    Spec,
+    /// core + `pu` and `acc` ops (Lean model `coreacc`)
+    Acc,
 }
 
 impl Profile {
@@ -809,6 +813,8 @@ impl Profile {
             "core3" => Profile::Core3,
             "full" => Profile::Full,
             "cycle" => Profile::Cycle,
+            "spec" => Profile::Spec,
+            "acc" => Profile::Acc,
             _ => return None,
         })
     }
@@ -884,9 +890,111 @@ pub fn gen_e(r: &mut Rng, p: Profile, rank: usize, pr: &Prog, depth: u32, specia
     E::C(r.below(4) as u32)
 }
 
+/// core-language expression (no cells, no structs)
+fn gen_core_e(r: &mut Rng, rank: usize, ni: usize, depth: u32) -> E {
+    let pr = Prog { ninputs: ni, ..Prog::empty() };
+    gen_e(r, Profile::Core, rank, &pr, depth, 0)
+}
+
+fn gen_history(r: &mut Rng, n: usize, ni: usize, init: &[(u32, u8)], with_acc: bool) -> Vec<Op> {
+    let mut ops = vec![];
+    let len = 5 + r.usize(30);
+    let mut cur: Vec<u32> = init.iter().map(|x| x.0).collect();
+    for _ in 0..len {
+        let x = r.below(100);
+        if x < 50 {
+            ops.push(if with_acc && r.chance(1, 2) { Op::Acc(r.usize(n)) } else { Op::Get(r.usize(n)) });
+        } else if x < 90 {
+            let i = r.usize(ni);
+            let v = if r.chance(1, 3) { cur[i] } else { r.below(4) as u32 };
+            cur[i] = v;
+            let d = match r.below(10) {
+                0..=6 => None,
+                7 => Some(0),
+                8 => Some(1 + r.below(2) as u8),
+                _ => Some(r.below(4) as u8),
+            };
+            ops.push(Op::Set(i, v, d));
+        } else {
+            ops.push(Op::Synth(r.below(4) as u8));
+        }
+    }
+    ops
+}
+
+/// creators with at most one struct (identity c0), conditionally created and conditionally
+/// specified; readers ask `sp`, `tv`, `tk` of the creators' results
+pub fn gen_spec_case(r: &mut Rng) -> Case {
+    let n = 3 + r.usize(5);
+    let ni = 2 + r.usize(3);
+    let mut prog = Prog::empty();
+    prog.ninputs = ni;
+    let ncreators = 1 + r.usize(2);
+    let small = |r: &mut Rng| -> Box<E> { Box::new(if r.chance(2, 3) { E::In(r.usize(ni)) } else { E::C(r.below(4) as u32) }) };
+    // spec body over sk / sv / inputs
+    prog.spec = match r.below(4) {
+        0 => E::SelfV,
+        1 => E::Add(Box::new(E::SelfV), small(r)),
+        2 => E::If(small(r), Box::new(E::SelfV), small(r)),
+        _ => *small(r),
+    };
+    for k in 0..n {
+        let e = if k < ncreators {
+            let mk = E::Mk(Box::new(E::C(0)), small(r), Box::new(E::In(r.usize(ni))), small(r));
+            match r.below(4) {
+                0 => E::If(Box::new(E::In(r.usize(ni))), Box::new(mk), Box::new(gen_core_e(r, k, ni, 1))),
+                _ => mk,
+            }
+        } else if r.chance(3, 4) {
+            let src = Box::new(E::Call(r.usize(ncreators)));
+            match r.below(6) {
+                0 | 1 => E::Spec(src),
+                2 => E::TsV(src),
+                3 => E::Add(Box::new(E::Spec(src)), Box::new(gen_core_e(r, k, ni, 1))),
+                4 => E::If(Box::new(E::In(r.usize(ni))), Box::new(E::Spec(src)), Box::new(gen_core_e(r, k, ni, 1))),
+                _ => E::Add(Box::new(E::TsK(src.clone())), Box::new(E::Spec(src))),
+            }
+        } else {
+            gen_core_e(r, k, ni, 2)
+        };
+        prog.nodes.push((Kind::Plain, e));
+    }
+    let init: Vec<(u32, u8)> = (0..ni).map(|_| (r.below(4) as u32, if r.chance(2, 3) { 0 } else { r.below(4) as u8 })).collect();
+    let ops = gen_history(r, n, ni, &init, false);
+    Case { prog, init, ops }
+}
+
+pub fn gen_acc_case(r: &mut Rng) -> Case {
+    let n = 2 + r.usize(6);
+    let ni = 1 + r.usize(4);
+    let mut prog = Prog::empty();
+    prog.ninputs = ni;
+    for k in 0..n {
+        let mut e = gen_core_e(r, k, ni, 3);
+        if r.chance(1, 2) {
+            let push = E::Push(Box::new(if r.chance(1, 2) { E::In(r.usize(ni)) } else { E::C(r.below(4) as u32) }));
+            e = match r.below(3) {
+                0 => E::Add(Box::new(push), Box::new(e)),
+                1 => E::Add(Box::new(e), Box::new(push)),
+                _ => E::If(Box::new(E::In(r.usize(ni))), Box::new(E::Add(Box::new(push), Box::new(e))), Box::new(gen_core_e(r, k, ni, 2))),
+            };
+        }
+        prog.nodes.push((Kind::Plain, e));
+    }
+    let init: Vec<(u32, u8)> = (0..ni).map(|_| (r.below(4) as u32, if r.chance(1, 2) { 0 } else { r.below(4) as u8 })).collect();
+    let ops = gen_history(r, n, ni, &init, true);
+    Case { prog, init, ops }
+}
+
 pub fn gen_case(r: &mut Rng, p: Profile) -> Case {
     if p == Profile::Cycle {
         return gen_cycle_case(r);
+    }
+    if p == Profile::Spec {
+        return gen_spec_case(r);
+    }
+    if p == Profile::Acc {
+        return gen_acc_case(r);
     }
     let n = 2 + r.usize(7);
     let mut prog = Prog::empty();
